@@ -401,6 +401,10 @@ func runC02(c *Ctx) {
 	// ---- R5 ---- item locks
 	r5 := c.Rule("R5", "itemActionTracker.lock: fetch-set-fetch; isLockOwner only on LockID equality after the verifying read; a foreign incompatible lock is a conflict error in lock and in checkTrackedItems", 8)
 	itemLockRules(c, r5)
+
+	r6 := c.Rule("R6", "no dirty reads through the node cache: the host-wide L1 cache stores clones and hands out materialised copies only, so one transaction's uncommitted node edits cannot be read by another (shared with C38.R2/R3)", 3)
+	l1IsolationRules(c, r6, r6)
+
 }
 
 func shortKey(k string) string {
